@@ -173,12 +173,14 @@ pub fn run_sweep(ctx: &Ctx, sw: &Sweep) -> Report {
     }
     // very wide archives: more than 1024 (and more than every count-like literal of the tree under test) files
     // open together — started, fed, then ended; the undamaged archive and a few cuts (oracles only)
-    if sw.c05 && (!CONSTS.scaled || CONSTS.chunk == 40) {
+    // (C05 runs all of them; C02 the largest only, at production constants)
+    if (sw.c05 && (!CONSTS.scaled || CONSTS.chunk == 40)) || (!sw.c05 && !CONSTS.scaled) {
         let mut ns: Vec<usize> = vec![1100];
         ns.extend(crate::gens::extra_bounds().iter().copied().filter(|x| *x >= 200 && *x <= 5000).map(|x| x + 76));
         ns.sort(); ns.dedup();
         // the three smallest and the largest (a history of closed ids bounded by a count-like literal shows only beyond it)
         let ns: Vec<usize> = { let mut v: Vec<usize> = ns.iter().copied().take(3).collect(); if let Some(l) = ns.last() { if !v.contains(l) { v.push(*l); } } v };
+        let ns: Vec<usize> = if sw.c05 { ns } else { ns.last().copied().into_iter().collect() };
         for (k, n) in ns.into_iter().enumerate() {
             let mut ops: Vec<Op> = (0..n).map(|i| Op::Start(format!("w{i}"))).collect();
             for i in 0..n { ops.push(Op::Append { id: i as u64, size: 2, src: rng.bytes(2, 3) }); }
